@@ -2,11 +2,15 @@ import Pfst.ReconcileLemmas
 /-!
 Correctness of the reconcile trace (`Pfst/Reconcile.lean`): replaying the emitted operations on what the output tree holds
 at a slot yields the structure of the edited node.  Mutual structural induction over the edited tree, following the call
-structure `recNode / recFields / recPlain / recSliceGo`.
+structure `recNode / recFields / recPlain / recSliceGo (/ recPair)`; the flattened `while` / `for` loops of `recurse_slice`
+and `recurse_slice_dict` are handled by one invariant (`SI`: the predicted output list agrees with the list at loop entry
+beyond the current run, the elements of a run copied from the marked tree are put again on their own).
 
-Side conditions (`wfN`, decidable): every in-tree origin names a node of the marked tree of the same kind whose fields have
-the same shape (same number of fields, list fields with the same compatibility class and mode), primitives that are `==`
-to the marked value are identical (`primOK`), nodes of other trees carry a tree id `≠ 0`, list elements are not lists.
+Side conditions (`wfN`, decidable, defined in the model file): every in-tree origin names a node of the marked tree of the
+same kind whose fields have the same shape (same number of fields, list fields with the same compatibility class and mode),
+primitives that are `==` to the marked value are identical (`primOK`), nodes of other trees carry a tree id `≠ 0`, list
+elements are not lists, `Dict` pairs have one kind, a key that is a node or `None` and an origin consistent with key and
+value (`wfPs`, `pairCons`).
 -/
 namespace Pfst.Reconcile
 
